@@ -252,6 +252,9 @@ pub fn ft_char(ft: std::fs::FileType) -> char {
     else if ft.is_file() {
         'f'
     }
+    else if std::os::unix::fs::FileTypeExt::is_fifo(&ft) {
+        'p'
+    }
     else {
         '?'
     }
